@@ -144,7 +144,7 @@ def run(ctx):
                         refused += 1
                         if (o[0] not in ("S412", "S403NA", "S404", "S400", "S409") or dump != prev) and "v" not in state and o[0] not in ("S412",):
                             pass
-                        if dump != prev and o[0] == "S412" and "v" not in state:
+                        if not x_hcheck.unchanged_but_home(prev, dump, ui) and o[0] == "S412" and "v" not in state:
                             state["v"] = True
                             ctx.violation("412 answered but the store changed", dict(world=x_hcheck.world_json(world), history=hist[:k + 1]))
                     elif ok:
@@ -153,7 +153,7 @@ def run(ctx):
                     state["v"] = True
                     ctx.violation("PUT with If-None-Match:* carried out on an existing resource (request %d)" % k,
                                   dict(world=x_hcheck.world_json(world), history=hist[:k + 1]))
-                if o[0] == "S412" and dump != prev and "v" not in state:
+                if o[0] == "S412" and not x_hcheck.unchanged_but_home(prev, dump, ui) and "v" not in state:
                     state["v"] = True
                     ctx.violation("412 answered but the store changed (request %d)" % k,
                                   dict(world=x_hcheck.world_json(world), history=hist[:k + 1]))
